@@ -4,7 +4,10 @@
 //!          (read back with BufRead::lines, real clean + normalize) — oracle field,
 //!          re-derived by `canon`; ntok: special tokens of the tokenizer built from
 //!          the table; tests: strings for the round trip
-//! output = (table toks vsize vocab t2i trace)
+//! output = (table toks vsize vocab t2i trace nfside file)
+//!          file = the bytes of the merge file train_bpe wrote (MessagePack); the model decodes them itself
+//!          (MsgPack_Model.v) and requires: nothing follows the map, re-encoding the entries in file order
+//!          gives the same bytes, the decoded map = `table` (the real MergeOps::load, sorted by id)
 //!          trace = (vocab stats steps): observed through the `verif` hook of train_bpe
 //!          (text_utils::verif::BpeObserver): the vocabulary in the index order the code
 //!          built it, the initial pair statistics, and per merge (first second vocab stats)
@@ -855,10 +858,15 @@ impl Prop for C19 {
                         Err(_) => Val::none(),
                     });
                     let mut o = vec![tv, toks, vsize, vocab, t2i, trace];
-                    if !side.is_empty() {
-                        // the side channel: the real normalize on every side string, 4 forms x 2 modes
-                        o.push(Val::list(side.iter(), |s| side_entry(s)));
-                    }
+                    // the side channel: the real normalize on every side string, 4 forms x 2 modes (() when
+                    // there are no side strings)
+                    o.push(Val::list(side.iter(), |s| side_entry(s)));
+                    // the merge file train_bpe wrote, byte for byte: the model decodes it itself
+                    // (MsgPack_Model.v) and compares with `tv`, the real loader's reading
+                    o.push(match std::fs::read(&of) {
+                        Ok(b) => Val::bytes(&b),
+                        Err(_) => Val::I(-770),
+                    });
                     Val::L(o)
                 })
             }
